@@ -17,6 +17,9 @@ BREAK = [
  ('src/vm/mod.rs', 'let initial_instruction_thread = instructions.new_thread(0)?;', 'let initial_instruction_thread = instructions.new_thread(1)?;', 'execution starts at offset 1'),
  ('src/vm/mod.rs', 'states:       self.stored_states,', 'states:       self.stored_states.into_iter().skip(1).collect(),', 'consume drops the first state'),
  ('src/vm/mod.rs', 'let current_thread_killed = false;', 'let current_thread_killed = true;', 'VM starts killed'),
+ ('src/vm/mod.rs', '        self.maximum_iterations_per_opcode = value;\n', '        self.maximum_forks_per_fork_target = value;\n', 'iteration-limit setter writes the fork limit'),
+ ('src/vm/mod.rs', '        self.gas_limit = value;\n', '        self.gas_limit = value;\n        self.value_size_limit = value;\n', 'gas-limit setter also overwrites the value size limit'),
+ ('src/vm/mod.rs', '        self.single_memory_operation_size_limit = value;\n', '        self.single_memory_operation_size_limit = value.max(32);\n', 'memory limit setter clamps'),
 ]
 KEEP = [
  ('src/vm/state/mod.rs', 'let stack = Stack::new();\n        let memory = Memory::new(config.single_memory_operation_size_limit);', 'let memory = Memory::new(config.single_memory_operation_size_limit);\n        let stack = Stack::new();', 'reordered lets'),
